@@ -7,6 +7,10 @@
 // The generated file mirrors the crate's module tree (constant, error::{container, disassembly},
 // opcode::{arithmetic, control, environment, logic, memory}, disassembly::disassembler) so that the
 // `use crate::{…}` block of disassembler.rs and every path in the extracted bodies resolve verbatim.
+//@dropped Opcode::{execute, min_gas_cost, arg_count, as_text_code} of every opcode and the Any+Debug+Downcast bounds (VM, format!, downcast_rs): not under contract in this unit
+//@dropped PushN::{byte_size, bytes_as_word}, DupN/SwapN/LogN::n, `impl Locatable for Result<T,E>`, Display impls: not used by disassemble
+//@dropped InstructionStream::try_from (src/disassembly/mod.rs: the caller that re-encodes and assert_eq!s): clause C10.dis.lossless is what makes that assertion unreachable, the caller itself is not extracted
+//@dropped the reversing iterator chains in PushN::{new, encode} and Vec::extend are replaced by assumed callees rev_vec / rev_slice / vec_extend (R-CALL, A-STD)
 use vstd::prelude::*;
 verus! {
 
@@ -65,6 +69,24 @@ pub broadcast proof fn lemma_enc_all_push(s: Seq<crate::opcode::DynOpcode>, x: c
     ensures #[trigger] enc_all(s.push(x)) == enc_all(s) + x.enc()
 {
     assert(s.push(x).drop_last() =~= s);
+}
+
+/// Non-vacuity of the classification: the property's own corner cases, evaluated.
+proof fn spec_examples() {
+    // 00 60: code ending in a bare PUSH1 (0 of 1 immediate bytes present)
+    assert(cls(seq![0x00u8, 0x60u8], 0) is Instr) by(compute);
+    assert(cls(seq![0x00u8, 0x60u8], 1) is Trunc) by(compute);
+    // 61 5b 5b 5b: PUSH2 0x5b5b, JUMPDEST — immediates that look like JUMPDEST are data
+    assert(cls(seq![0x61u8, 0x5bu8, 0x5bu8, 0x5bu8], 0) is Instr) by(compute);
+    assert(cls(seq![0x61u8, 0x5bu8, 0x5bu8, 0x5bu8], 1) is Imm) by(compute);
+    assert(cls(seq![0x61u8, 0x5bu8, 0x5bu8, 0x5bu8], 2) is Imm) by(compute);
+    assert(cls(seq![0x61u8, 0x5bu8, 0x5bu8, 0x5bu8], 3) is Instr) by(compute);
+    // 5b 62 01 02: JUMPDEST, then PUSH3 cut short by one byte: invalid from the push opcode on
+    assert(cls(seq![0x5bu8, 0x62u8, 0x01u8, 0x02u8], 0) is Instr) by(compute);
+    assert(cls(seq![0x5bu8, 0x62u8, 0x01u8, 0x02u8], 1) is Trunc) by(compute);
+    assert(cls(seq![0x5bu8, 0x62u8, 0x01u8, 0x02u8], 3) is Trunc) by(compute);
+    assert(cls(seq![0x7fu8], 0) is Trunc) by(compute);   // PUSH32 alone
+    assert(cls(seq![0x5fu8], 0) is Instr) by(compute);   // PUSH0 has no immediate
 }
 
 // =============================== src/constant.rs ====================================================
@@ -131,19 +153,21 @@ pub trait Opcode where Self: 'static {
     spec fn byte_spec(&self) -> u8;
     open spec fn byte_defined(&self) -> bool { true }
     open spec fn kind(&self) -> Kind { Kind::Plain }
-    /// true for the impls that override `encode` (Nop, PushN)
-    open spec fn overrides_encode(&self) -> bool { false }
     open spec fn enc(&self) -> Seq<u8> { seq![self.byte_spec()] }
 
     fn as_byte(&self) -> (r: u8)
         requires self.byte_defined(),
         ensures r == self.byte_spec();      //@ob C10.dis.as_byte_is_evm_byte
 
+}
+
+/// Carrier for the *default* body of `Opcode::encode` (src/opcode/mod.rs) — what every opcode that
+/// does not override `encode` runs; verified once for an arbitrary implementor. The two overrides
+/// (Nop, PushN) are checked as inherent functions next to their types.
+pub trait OpcodeEncodeDefault: Opcode {
     fn encode(&self) -> (r: Vec<u8>)
-        requires !self.overrides_encode() ==> self.byte_defined(),
-        ensures
-            !self.overrides_encode() ==> r@ == seq![self.byte_spec()],    //@ob C10.dis.default_encode_is_as_byte
-            self.overrides_encode() ==> r@ == self.enc(),                 //@ob C10.dis.encode_override_is_enc
+        requires self.byte_defined(),
+        ensures r@ == seq![self.byte_spec()],    //@ob C10.dis.default_encode_is_as_byte
 //@extract file=src/opcode/mod.rs path="trait Opcode|fn encode" kind=body id=opcode::Opcode::encode(default)
 //@end
 }
@@ -180,7 +204,7 @@ impl LogN {
 //@spec
         ensures
             n <= 4 ==> r is Ok && r->Ok_0.wf() && r->Ok_0.n_spec() == n,     //@ob C10.dis.logn_new
-            n > 4 ==> r is Err,
+            n > 4 ==> r is Err,     //@ob C10.dis.logn_new
 //@end
 }
 impl Opcode for LogN {
@@ -209,7 +233,7 @@ impl DupN {
 //@spec
         ensures
             1 <= n <= 16 ==> r is Ok && r->Ok_0.wf() && r->Ok_0.n_spec() == n,     //@ob C10.dis.dupn_new
-            !(1 <= n <= 16) ==> r is Err,
+            !(1 <= n <= 16) ==> r is Err,     //@ob C10.dis.dupn_new
 //@end
 }
 impl Opcode for DupN {
@@ -231,7 +255,7 @@ impl SwapN {
 //@spec
         ensures
             1 <= n <= 16 ==> r is Ok && r->Ok_0.wf() && r->Ok_0.n_spec() == n,     //@ob C10.dis.swapn_new
-            !(1 <= n <= 16) ==> r is Err,
+            !(1 <= n <= 16) ==> r is Err,     //@ob C10.dis.swapn_new
 //@end
 }
 impl Opcode for SwapN {
@@ -286,7 +310,7 @@ rev_vec(bytes)
 //@spec
         ensures
             (1 <= n <= 32 && bytes@.len() == n) ==> r is Ok && r->Ok_0.wf() && r->Ok_0.n_spec() == n && r->Ok_0.imm() == bytes@,   //@ob C10.dis.pushn_new
-            !(1 <= n <= 32 && bytes@.len() == n) ==> r is Err,
+            !(1 <= n <= 32 && bytes@.len() == n) ==> r is Err,     //@ob C10.dis.pushn_new
 //@proof entry
         proof { assert(bytes@.reverse().reverse() =~= bytes@); }
 //@end
@@ -301,11 +325,13 @@ impl Opcode for PushN {
     open spec fn byte_spec(&self) -> u8 { (0x5f + self.n_spec()) as u8 } // EVM: PUSHn = 0x5f + n
     open spec fn byte_defined(&self) -> bool { self.wf() }
     open spec fn kind(&self) -> Kind { Kind::Push }
-    open spec fn overrides_encode(&self) -> bool { true }
     open spec fn enc(&self) -> Seq<u8> { seq![self.byte_spec()] + self.imm() }   // opcode byte, then the immediate as it stood in the code
 //@extract file=src/opcode/memory.rs path="impl Opcode for PushN|fn as_byte"
 //@end
+}
+impl PushN { // the `encode` override of `impl Opcode for PushN`, as an inherent fn (the stand-in trait carries no `encode`)
 //@extract file=src/opcode/memory.rs path="impl Opcode for PushN|fn encode"
+//@ret r
 //@rw R-CALL
 //@old
 self.bytes_data().iter().rev().copied().collect()
@@ -316,6 +342,9 @@ rev_slice(self.bytes_data())
 data.extend(bytes_be)
 //@new
 vec_extend(&mut data, bytes_be)
+//@spec
+        requires self.wf(),
+        ensures r@ == self.enc(),     //@ob C10.dis.pushn_encode_is_enc
 //@end
 }
 }
@@ -365,15 +394,181 @@ impl Opcode for Nop {
     open spec fn byte_spec(&self) -> u8 { 0 }                       // no byte: as_byte must never be called
     open spec fn byte_defined(&self) -> bool { false }
     open spec fn kind(&self) -> Kind { Kind::Nop }
-    open spec fn overrides_encode(&self) -> bool { true }
     open spec fn enc(&self) -> Seq<u8> { Seq::<u8>::empty() }      // padding: takes no space in the code
 //@extract file=src/opcode/control.rs path="impl Opcode for Nop|fn as_byte"
 //@end
+}
+impl Nop { // the `encode` override of `impl Opcode for Nop`, as an inherent fn
 //@extract file=src/opcode/control.rs path="impl Opcode for Nop|fn encode"
+//@ret r
+//@spec
+        ensures r@ == self.enc(),     //@ob C10.dis.nop_encode_is_empty
 //@end
 }
 }
 } // mod opcode
+
+// =============================== src/disassembly/disassembler.rs ====================================
+pub mod disassembly {
+pub mod disassembler {
+use vstd::prelude::*;
+use crate::{Kind, Cls, cls, scan, is_push, imm_len, evm_assigned, enc_all, lemma_enc_all_push};
+// the module's own import block, verbatim (the generated file mirrors the crate's module tree)
+//@extract file=src/disassembly/disassembler.rs path="use std::rc::Rc" kind=type id=disassembler::use_rc
+//@end
+//@extract file=src/disassembly/disassembler.rs path="use crate" kind=type id=disassembler::use_crate
+//@end
+;
+
+/// The `Rc<dyn Opcode>` that `Rc::new(elem)` coerces to. Verus does not connect the spec functions of
+/// a `dyn Opcode` behind an `Rc` with those of the concrete `elem` it was made from.
+pub uninterp spec fn dyn_of<T: Opcode>(elem: T) -> DynOpcode;
+
+// A-CALLEE: `Rc::new(elem)` coerced to `Rc<dyn Opcode>` is ASSUMED to behave as `elem` (same encoding,
+// same byte, same kind): dynamic dispatch through `Rc<dyn Opcode>` reaches `elem`'s own methods.
+#[verifier::external_body]
+pub fn rc_dyn<T: Opcode>(elem: T) -> (r: DynOpcode)
+    ensures
+        r == dyn_of(elem),
+        dyn_of(elem).enc() == elem.enc(),
+        dyn_of(elem).byte_spec() == elem.byte_spec(),
+        dyn_of(elem).kind() == elem.kind(),
+{
+    Rc::new(elem)
+}
+
+//@extract file=src/disassembly/disassembler.rs path="fn add_op"
+//@rw R-CALL
+//@old
+Rc::new(elem)
+//@new
+rc_dyn(elem)
+//@spec
+    ensures
+        final(ops)@ == old(ops)@.push(dyn_of(elem)),                     //@ob C10.dis.add_op_appends_one
+        dyn_of(elem).enc() == elem.enc(),
+        dyn_of(elem).byte_spec() == elem.byte_spec(),
+        dyn_of(elem).kind() == elem.kind(),
+//@end
+
+//@extract file=src/disassembly/disassembler.rs path="fn disassemble"
+//@ret res
+//@rw R-ENUM
+//@old
+for (offset, byte) in bytes.iter().enumerate() {
+//@new
+for offset in 0..bytes.len() {
+        let byte = &bytes[offset];
+//@rw R-MAPERR
+//@old
+let instruction_pointer = $1.map_err(|_| $2)?;
+//@new
+let instruction_pointer = match $1 { Ok(v) => v, Err(_) => return Err($2) };
+//@rw R-MAPERR count=5
+//@old
+let opcode = $1.map_err(|e| e.locate($2))?;
+//@new
+let opcode = match $1 { Ok(v) => v, Err(e) => return Err(e.locate($2)) };
+//@rw R-FOREACH
+//@old
+push_bytes.iter().for_each(|b| $1);
+//@new
+for k in 0..push_bytes.len() { let b = &push_bytes[k]; $1; }
+//@rw R-SIG
+//@old
+for _ in $1 {
+//@new
+for _ in pad: $1 {
+//@spec
+    ensures
+        bytes@.len() == 0 ==> res is Err && res->Err_0.payload is EmptyBytecode,                    //@ob C10.dis.empty_is_error
+        0 < bytes@.len() <= u32::MAX ==> res is Ok,                                                 //@ob C10.dis.total
+        res is Ok ==> res->Ok_0@.len() == bytes@.len(),                                             //@ob C10.dis.index_is_offset
+        res is Ok ==> enc_all(res->Ok_0@) == bytes@,                                                //@ob C10.dis.lossless
+        res is Ok ==> forall|i: int| 0 <= i < bytes@.len() && cls(bytes@, i) is Imm
+            ==> (#[trigger] res->Ok_0@[i]).kind() is Nop,                                           //@ob C10.dis.immediates_are_nop
+        res is Ok ==> forall|i: int| 0 <= i < bytes@.len() && (#[trigger] res->Ok_0@[i]).kind() is JumpDest
+            ==> bytes@[i] == 0x5b && cls(bytes@, i) is Instr,                                       //@ob C08.dis.jumpdest_is_boundary C10.dis.jumpdest_never_push_data
+        res is Ok ==> forall|i: int| 0 <= i < bytes@.len() && cls(bytes@, i) is Instr && !evm_assigned(bytes@[i])
+            ==> (#[trigger] res->Ok_0@[i]).kind() is Invalid && res->Ok_0@[i].byte_spec() == bytes@[i],   //@ob C10.dis.unassigned_is_invalid
+        res is Ok ==> forall|i: int| 0 <= i < bytes@.len() && cls(bytes@, i) is Trunc
+            ==> (#[trigger] res->Ok_0@[i]).kind() is Invalid && res->Ok_0@[i].byte_spec() == bytes@[i],   //@ob C10.dis.truncated_push_is_invalid_bytes
+//@proof entry
+    proof { broadcast use lemma_enc_all_push; }
+//@loop 1
+        invariant
+            // the push-immediate counter
+            (remaining_push_bytes == 0) == (push_size == 0),                                       //@ob C10.dis.inv.push_counter
+            remaining_push_bytes <= push_size <= 32,                                               //@ob C10.dis.inv.push_counter
+            push_bytes@.len() == push_size - remaining_push_bytes,                                 //@ob C10.dis.inv.push_counter
+            push_size == 0 ==> ops@.len() == offset,                                               //@ob C10.dis.index_is_offset
+            push_size != 0 ==> ops@.len() + 1 + push_bytes@.len() == offset,                       //@ob C10.dis.index_is_offset
+            push_size != 0 ==> is_push(last_push) && push_size == last_push - 0x5f && bytes@[ops@.len() as int] == last_push,   //@ob C10.dis.inv.open_push_is_evm_push
+            push_size != 0 ==> push_bytes@ =~= bytes@.subrange(ops@.len() as int + 1, offset as int),                         //@ob C10.dis.inv.open_push_immediate
+            // ops@.len() is an instruction boundary
+            forall|i: int| ops@.len() <= i < bytes@.len() ==> #[trigger] cls(bytes@, i) == scan(bytes@, ops@.len() as int, i),   //@ob C10.dis.inv.at_instruction_boundary
+            // what has been emitted so far
+            enc_all(ops@) =~= bytes@.subrange(0, ops@.len() as int),                               //@ob C10.dis.lossless
+            forall|i: int| 0 <= i < ops@.len() && cls(bytes@, i) is Imm ==> (#[trigger] ops@[i]).kind() is Nop,      //@ob C10.dis.immediates_are_nop
+            forall|i: int| 0 <= i < ops@.len() && (#[trigger] ops@[i]).kind() is JumpDest
+                ==> bytes@[i] == 0x5b && cls(bytes@, i) is Instr,                                  //@ob C08.dis.jumpdest_is_boundary C10.dis.jumpdest_never_push_data
+            forall|i: int| 0 <= i < ops@.len() && cls(bytes@, i) is Instr && !evm_assigned(bytes@[i])
+                ==> (#[trigger] ops@[i]).kind() is Invalid && ops@[i].byte_spec() == bytes@[i],    //@ob C10.dis.unassigned_is_invalid
+            forall|i: int| 0 <= i < ops@.len() ==> !(#[trigger] cls(bytes@, i) is Trunc),    //@ob C10.dis.truncated_push_is_invalid_bytes
+//@proof loopstart #1
+            proof {
+                broadcast use lemma_enc_all_push;
+                assert(bytes@.subrange(0, offset as int + 1) =~= bytes@.subrange(0, offset as int).push(bytes@[offset as int]));
+            }
+//@proof before "for _ in"
+                proof {
+                    let s = offset - push_size;
+                    assert(push_bytes@ =~= bytes@.subrange(s + 1, offset + 1));
+                    assert(bytes@.subrange(0, offset + 1) =~= bytes@.subrange(0, s) + (seq![last_push] + push_bytes@));
+                }
+//@loop 2
+                    invariant
+                        remaining_push_bytes == 0, 1 <= push_size <= 32, push_size <= offset < bytes@.len(),
+                        ops@.len() + push_size == offset + 1 + pad.index@,                         //@ob C10.dis.index_is_offset
+                        forall|i: int| offset - push_size < i <= offset ==> #[trigger] cls(bytes@, i) is Imm,
+                        enc_all(ops@) =~= bytes@.subrange(0, offset as int + 1),                   //@ob C10.dis.lossless
+                        forall|i: int| 0 <= i < ops@.len() && cls(bytes@, i) is Imm ==> (#[trigger] ops@[i]).kind() is Nop,      //@ob C10.dis.immediates_are_nop
+                        forall|i: int| 0 <= i < ops@.len() && (#[trigger] ops@[i]).kind() is JumpDest
+                            ==> bytes@[i] == 0x5b && cls(bytes@, i) is Instr,                      //@ob C08.dis.jumpdest_is_boundary C10.dis.jumpdest_never_push_data
+                        forall|i: int| 0 <= i < ops@.len() && cls(bytes@, i) is Instr && !evm_assigned(bytes@[i])
+                            ==> (#[trigger] ops@[i]).kind() is Invalid && ops@[i].byte_spec() == bytes@[i],    //@ob C10.dis.unassigned_is_invalid
+                        forall|i: int| 0 <= i < ops@.len() ==> !(#[trigger] cls(bytes@, i) is Trunc),    //@ob C10.dis.truncated_push_is_invalid_bytes
+//@proof loopstart #2
+                    proof { broadcast use lemma_enc_all_push; assert(enc_all(ops@) + Seq::<u8>::empty() =~= enc_all(ops@)); }
+//@loop 3
+            invariant
+                remaining_push_bytes != 0, push_size != 0, push_bytes@.len() < bytes@.len(),
+                ops@.len() + push_bytes@.len() == bytes@.len() + k,                                 //@ob C10.dis.index_is_offset
+                push_bytes@ =~= bytes@.subrange(bytes@.len() - push_bytes@.len(), bytes@.len() as int),
+                forall|i: int| bytes@.len() - push_bytes@.len() - 1 <= i < bytes@.len() ==> #[trigger] cls(bytes@, i) is Trunc,
+                enc_all(ops@) =~= bytes@.subrange(0, ops@.len() as int),                            //@ob C10.dis.lossless
+                forall|i: int| 0 <= i < ops@.len() && cls(bytes@, i) is Imm ==> (#[trigger] ops@[i]).kind() is Nop,      //@ob C10.dis.immediates_are_nop
+                forall|i: int| 0 <= i < ops@.len() && (#[trigger] ops@[i]).kind() is JumpDest
+                    ==> bytes@[i] == 0x5b && cls(bytes@, i) is Instr,                               //@ob C08.dis.jumpdest_is_boundary C10.dis.jumpdest_never_push_data
+                forall|i: int| 0 <= i < ops@.len() && cls(bytes@, i) is Instr && !evm_assigned(bytes@[i])
+                    ==> (#[trigger] ops@[i]).kind() is Invalid && ops@[i].byte_spec() == bytes@[i], //@ob C10.dis.unassigned_is_invalid
+                forall|i: int| 0 <= i < ops@.len() && cls(bytes@, i) is Trunc
+                    ==> (#[trigger] ops@[i]).kind() is Invalid && ops@[i].byte_spec() == bytes@[i], //@ob C10.dis.truncated_push_is_invalid_bytes
+//@proof loopstart #3
+            proof {
+                broadcast use lemma_enc_all_push;
+                assert(bytes@.subrange(0, ops@.len() as int + 1) =~= bytes@.subrange(0, ops@.len() as int).push(bytes@[ops@.len() as int]));
+            }
+//@proof afterloop #1
+    proof {
+        assert(bytes@.subrange(0, bytes@.len() as int) =~= bytes@);
+        if ops@.len() < bytes@.len() {
+            assert(bytes@.subrange(0, ops@.len() as int + 1) =~= bytes@.subrange(0, ops@.len() as int).push(bytes@[ops@.len() as int]));
+        }
+    }
+//@end
+}
+}
 
 } // verus!
 fn main() {}
